@@ -475,16 +475,13 @@ def expand_properties(cls: ClassInfo, e: ast.AST, self_name: str = 'self', depth
                     rets = [r for r in m.body_nodes() if isinstance(r, ast.Return) and r.value is not None]
                     if len(rets) == 1:
                         sn = m.self_name() or 'self'
-                        body = _c.deepcopy(rets[0].value)
+                        body = ast.parse(norm(rets[0].value), mode='eval').body
                         for y in ast.walk(body):
-                            y.__dict__.pop('_parent', None)
                             if isinstance(y, ast.Name) and y.id == sn:
                                 y.id = self_name
                         return body
             return n
-    out = _c.deepcopy(e)
-    for y in ast.walk(out):
-        y.__dict__.pop('_parent', None)
+    out = ast.parse(norm(e), mode='eval').body
     for _ in range(depth):
         out = X().visit(out)
     return out
